@@ -172,6 +172,8 @@ type c05Obs struct {
 	Msg         string
 	UsedBefore  []string // UsedUserTypes() of the built root before Check()
 	UsedAfter   []string // ... and after Check()
+	UsedChecked []string // UsedUserTypes() of a second, equally built root whose first call was Check()
+	HasChecked  bool
 	UsedErr     string
 	Panic       *mon.Panic
 	BuildFailed bool
@@ -198,6 +200,22 @@ func c05Observe(reg project, rootOnly bool) c05Obs {
 			err = s.Check()
 			u, _ = s.UsedUserTypes()
 			o.UsedAfter = append([]string(nil), u...)
+			// the other order of calls, on a second object: Check() (and GetAST, Example) first, the names afterwards
+			var s2 *jschema.JSchema
+			var err2 error
+			if rootOnly {
+				s2, err2 = c05BuildRootOnly(reg)
+			} else {
+				s2, err2 = reg.build()
+			}
+			if err2 == nil {
+				_ = s2.Check()
+				_, _ = s2.GetAST()
+				_, _ = s2.Example()
+				if u2, e := s2.UsedUserTypes(); e == nil {
+					o.UsedChecked, o.HasChecked = append([]string(nil), u2...), true
+				}
+			}
 		} else {
 			o.BuildFailed = true
 		}
@@ -349,7 +367,11 @@ func c05EvalSubsetOf(pt project, g c05Graph, withheld map[string]bool, usedRef *
 		return c05Verdict{Status: "generator-invalid", Code: o.Code, What: o.Msg}
 	}
 	if usedRef != nil && o.UsedErr == "" {
-		for _, u := range [][]string{o.UsedBefore, o.UsedAfter} {
+		lists := [][]string{o.UsedBefore, o.UsedAfter}
+		if o.HasChecked {
+			lists = append(lists, o.UsedChecked)
+		}
+		for _, u := range lists {
 			if c05HasDup(u) {
 				return c05Verdict{Clause: "used-types-duplicates", What: fmt.Sprintf("UsedUserTypes() = %q contains a name twice", u), Status: "judged", Code: o.Code}
 			}
